@@ -270,8 +270,10 @@ def run_sequences(ctx, behs, pool, mode, label):
         ctx.violation(sig, "%s [%d behaviour(s), %s]" % (ex["what"], len(lst), label),
                       {"shortest": ex, "count": len(lst), "more": [x["what"] for x in lst[1:4]]})
     traces = kit.read_ndjson(tfile) if os.path.exists(tfile) else []
+    kinds = {r["id"]: sorted(set(i["k"] for i in r["issues"])) for r in res}
     for t in traces:
         t["clean"] = t["id"] in cleanids
+        t["kinds"] = kinds.get(t["id"], [])
     ctx.cov.setdefault("sequences", {})[label] = {"behaviours": len(behs), "as_modelled": clean,
                                                  "ms": sum(r.get("ms", 0) for r in res)}
     return found, traces
@@ -307,7 +309,9 @@ def validate(ctx, traces, cap):
             sig = "seq/trace-violates-" + (r.violated[0] if r.violated and r.violated[0] != "POSTCONDITION" else "spec")
             ctx.violation(sig, "the events observed on the real Restarter for behaviour %d (%s) are not a behaviour of Handover.tla: "
                           "stuck at event %s %s" % (t["id"], t["src"], at, r.reject[1]), {"trace": t, "tlc": r.violated})
+    dirty = [t for t in dirty if set(t.get("kinds", [])) & {"bad-frame-answered", "unexpected-call", "extra-reply"}]
     if dirty:
+        # a run in which the driver saw the parent act on a malformed unit: TLC must refuse its events too
         t = min(dirty, key=lambda t: len(t["tr"]))
         ev = [{"a": a, "c": c, "x": x} for a, c, x in t["tr"]]
         r = ctx.validate_traces("hotrestart", "HandoverTrace", "Trace_Handover.cfg", ev, 0, timeout=300)
@@ -353,7 +357,7 @@ def run_e2e(ctx, behs):
         if len(set(rq)) != len(rq) or ("term" in rq and rq[-1] != "term"):
             continue   # each step once (the real instance guards admin/drain with sync.Once), terminate last
         cand.append(b)
-    fixed = [["admin", "drain", "term"], ["conf", "admin", "drain", "term"]]
+    fixed = [["admin", "drain", "term"], ["conf", "admin", "drain"], ["conf", "admin", "drain", "term"]]
     picked = [b for b in cand if requests_of(b) in fixed]
     rest = [b for b in cand if requests_of(b) not in fixed]
     rnd.shuffle(rest)
@@ -383,8 +387,9 @@ def run_e2e(ctx, behs):
                     bad.append(("e2e/step-effect-differs", "request %d (%s) could not be sent: the old process was gone" % (i + 1, x["req"])))
                     break
                 o, par = r["obs"][i], x["par"]
-                want = {"reply": x["reply"], "adminUp": par["admin"], "accepting": par["accepting"],
-                        "estAlive": not par["terminated"], "alive": not par["terminated"]}
+                gone = par["terminated"]     # the signalled process shuts everything down and exits
+                want = {"reply": x["reply"], "adminUp": par["admin"] and not gone, "accepting": par["accepting"] and not gone,
+                        "estAlive": not gone, "alive": not gone}
                 got = {k: o[k] for k in want}
                 if got != want:
                     if x["req"] == "conf" and not o["alive"]:
